@@ -76,7 +76,9 @@ impl DealerSocketOutgoingProcessor {
     ensures final(self).pending_queue == old(self).pending_queue, final(self).queued_message_in_flight == old(self).queued_message_in_flight,
       final(self).w@.acc == old(self).w@.acc, final(self).w@.locked == old(self).w@.locked, final(self).core_handle == old(self).core_handle,
       r is Ok ==> final(self).w@.delivered == old(self).w@.delivered.push(fb@),
-      r matches Err(p) ==> p.0@ == fb@ && final(self).w@.delivered == old(self).w@.delivered,
+      // what unit route PROVES of route_message: the batch comes back intact only with would-block (timeout / closed: an EMPTY batch)
+      r is Err ==> final(self).w@.delivered == old(self).w@.delivered,
+      r matches Err(p) ==> ((p.1 is ResourceLimitReached) ==> p.0@ == fb@),
   { unimplemented!() }
 }
 pub proof fn lemma_views_push_front(q: Seq<FrameBatch>, x: FrameBatch)
